@@ -108,10 +108,6 @@ theorem ofU64_exact {f : Fmt} (hf : WF f) (hpb : f.p + 1 ≤ f.bias) {m : Nat} (
       rw [t1]; ac_rfl
     exact Nat.eq_of_mul_eq_mul_right (Nat.two_pow_pos _) this
 
-/-- `m · base^e` as a fraction -/
-def powFrac (base : Nat) (e : Int) (m : Nat) : Nat × Nat :=
-  if e ≥ 0 then (m * base ^ e.toNat, 1) else (m, base ^ (-e).toNat)
-
 /-- a table entry the fast path may use is exactly `r^e` -/
 theorem pow_entry {S : SmallSet} {F : FTy} {r : Nat} (T : FastTables S F.fmt r) {e v : Nat}
     (hv : powFastPath S F r e = some v) (he : (e : Int) ≤ (S.exponentLimit F.fmt r).2) :
